@@ -76,7 +76,7 @@ TEXTS = {
         "note": "checked policies only (debug-shaped with the simulator's ids, stock debug with std_rtti, checked+indirect, deferred); final on an unregistered exact type is outside the property (final skips the look-up by design)",
     },
     "C16": {
-        "technique": "deterministic simulation: seeded thread schedules (real threads parked and released one at a time) under ThreadSanitizer with a hidden hand-off, results compared with the sequential execution; 8% cold runs in a pristine process (first-use paths run concurrently)",
+        "technique": "deterministic simulation: seeded thread schedules (real threads parked and released one at a time) under ThreadSanitizer with a hidden hand-off, results compared with the sequential execution; 8% cold runs in a pristine process (first-use paths run concurrently); scheduling points also right before atomic operations (link-time wrappers of the sanitizer's atomic entry points); engine twsched runs the typed world (real front-end, casts across multiple and virtual inheritance, stock std_rtti) under the same scheduler",
         "design_ref": "DESIGN.md 3.6, 4 (C16)",
         "text": "Caller threads run seeded scripts on policy A (calls through every argument route, resolve only, erroring calls whose handler throws, making / copying / converting / using / dropping virtual_ptrs and virtual_shared_ptrs) while another thread loads, unloads, updates (also with injected faults) and calls policy B; the scheduler decides every interleaving from the seed. Checked: no ThreadSanitizer report (found by happens-before analysis although execution is serialised, hence replayable), every result equals the one of the sequential execution of the same script and the model, and the data update<A> published is unchanged at every scheduler step.",
         "note": "exploration over schedules; TSan sees no synchronisation between tasks because the scheduler's futex words are only touched from uninstrumented functions",
